@@ -87,6 +87,10 @@ func c36NewEnv() *c36Env {
 		e.rules[n] = NewRateLimiterRule(time.Hour*time.Duration(1001+i), 1)
 	}
 
+	// the two special rule values: no limit at all, and reject everything
+	e.rules["nolimit"] = NoLimitRateLimiterRule()
+	e.rules["zero"] = LimitRateLimiterRule()
+
 	e.addrs["a1"] = &net.UDPAddr{IP: net.ParseIP("10.1.2.3"), Port: 4001}
 	e.addrs["a2"] = &net.UDPAddr{IP: net.ParseIP("10.2.0.1"), Port: 4002}
 	e.addrs["a3"] = &net.UDPAddr{IP: net.ParseIP("192.168.0.1"), Port: 4003}
@@ -103,11 +107,20 @@ func c36NewEnv() *c36Env {
 		e.ipnets[k] = n
 	}
 
-	// every rule must be identifiable from the result's limiter string
+	for _, v := range []string{"nolimit", "zero"} { // net 10/8 with a special rule value
+		e.ipnets["8:"+v] = e.ipnets["8"]
+		e.rules["net-8:"+v] = e.rules[v]
+	}
+
+	// every rule must be identifiable from the result's limiter string (the special values print alike under every rule set)
 	seen := map[string]string{humanizeRateLimiter(defaultRateLimiter.Limit, defaultRateLimiter.Burst): "builtin"}
 
 	for n, rl := range e.rules {
 		h := humanizeRateLimiter(rl.Limit, rl.Burst)
+		if h == "nolimit" || h == "0" {
+			continue
+		}
+
 		if o, found := seen[h]; found {
 			panic(fmt.Sprintf("rules %s and %s print alike: %s", n, o, h))
 		}
@@ -181,6 +194,7 @@ type c36Sys struct {
 	// enforcement bookkeeping, per limiter identity the code reports, since the last rule change
 	allowed     map[string]int
 	lastServed  string
+	prevLimiter string // never reset
 	interleaved map[string]bool
 }
 
@@ -233,6 +247,7 @@ type c36Result struct {
 	allowed      bool
 	cachedBefore string
 	reused       bool // the cached limiter was handed back untouched (no rule evaluation updated it)
+	prevLimiter  string // what served the previous request of the address ("" = first request)
 	burst        int
 }
 
@@ -266,6 +281,10 @@ func (s *c36Sys) apply(ev c36Event) *c36Result {
 				"c1": s.rulemap("cid-c1"), "c2": s.rulemap("cid-c2"),
 			}))
 			s.m.cid = map[string]string{"c1": "cid-c1", "c2": "cid-c2"}
+		case "c1:nolimit", "c1:zero": // c1 with a special rule value
+			v := strings.TrimPrefix(ev.arg, "c1:")
+			_ = rules.SetClientIDRuleSet(NewClientIDRateLimiterRuleSet(map[string]RateLimiterRuleMap{"c1": s.rulemap(v)}))
+			s.m.cid = map[string]string{"c1": v}
 		}
 	case "nets":
 		switch ev.arg {
@@ -328,6 +347,9 @@ func (s *c36Sys) apply(ev c36Event) *c36Result {
 		case "miss":
 			_ = rules.SetDefaultRuleMap(NewRateLimiterRuleMap(nil, map[string]RateLimiterRule{"other-handler": s.env.rules["dm"]}))
 			s.m.dm = map[string]string{"other-handler": "dm"}
+		case "nolimit", "zero":
+			_ = rules.SetDefaultRuleMap(NewRateLimiterRuleMap(nil, map[string]RateLimiterRule{c36Handler: s.env.rules[ev.arg]}))
+			s.m.dm = map[string]string{c36Handler: ev.arg}
 		}
 	default:
 		panic("unknown event " + ev.op)
@@ -410,6 +432,7 @@ func (s *c36Sys) request(cid string) *c36Result {
 	}
 
 	s.lastServed = id
+	res.prevLimiter, s.prevLimiter = s.prevLimiter, res.limiter
 
 	if res.allowed {
 		s.allowed[id]++
@@ -519,11 +542,71 @@ func TestVerifC36(t *testing.T) {
 		}
 	}
 
+	item = c36SpecialValues(r, env, item)
+
 	c36Enforcement(r, env, item)
 
 	if time.Since(started) > 100*time.Hour {
 		r.Cap("run took longer than the no-refill assumption allows")
 	}
+}
+
+// c36SpecialValues (part P0): the rule values "nolimit" and "0" (reject all)
+// and the transitions between them and a finite rule, by replacing the default
+// map, the client-id rule set or the net rule set, on a cached limiter and on
+// an address that has none yet. Oracle: the usual precedence comparison;
+// under "0" no request is allowed, under "nolimit" every request is.
+func c36SpecialValues(r *vlib.Run, env *c36Env, item int) int {
+	depth := vlib.Pick(r, 4, 5)
+	alphabet := []c36Event{
+		{"req", "-"}, {"req", "c1"},
+		{"dm", "hit"}, {"dm", "nolimit"}, {"dm", "zero"},
+		{"cid", "nil"}, {"cid", "c1"}, {"cid", "c1:nolimit"}, {"cid", "c1:zero"},
+		{"nets", "nil"}, {"nets", "8"}, {"nets", "8:nolimit"}, {"nets", "8:zero"},
+	}
+
+	r.Set("special_values_depth", depth)
+	r.Set("special_values_alphabet", len(alphabet))
+
+	cfg := c36Cfg{cid: "nil", nets: "nil", nodes: "nil", member: false, dm: "hit"}
+
+	for ai, first := range alphabet { // shard on the first event
+		mine := r.Mine(item)
+		item++
+
+		if !mine || r.Expired() {
+			continue
+		}
+
+		_ = ai
+		prefix := "P0/" + cfg.String() + "/a1"
+		hist := []c36Event{first}
+
+		var rec func()
+		rec = func() {
+			if hist[len(hist)-1].op == "req" {
+				c36RunHistory(r, env, cfg, "a1", prefix, hist)
+			}
+
+			if len(hist) == depth {
+				return
+			}
+
+			for _, ev := range alphabet {
+				if len(hist)+1 == depth && ev.op != "req" {
+					continue
+				}
+
+				hist = append(hist, ev)
+				rec()
+				hist = hist[:len(hist)-1]
+			}
+		}
+
+		rec()
+	}
+
+	return item
 }
 
 func c36RunHistory(r *vlib.Run, env *c36Env, cfg c36Cfg, an, prefix string, hist []c36Event) {
@@ -595,9 +678,32 @@ func c36RunHistory(r *vlib.Run, env *c36Env, cfg c36Cfg, an, prefix string, hist
 
 	lid := res.typ + " " + res.limiter
 
+	prev := res.prevLimiter
+	if prev != "" && prev != "nolimit" && prev != "0" {
+		prev = "finite"
+	}
+
 	switch {
 	case wrule == "builtin":
 		r.Outcome(fmt.Sprintf("ok/%s/allowed=%v", wtyp, res.allowed))
+	case wlim == "0" && res.allowed:
+		r.Outcome("zero-rule-allowed/" + wtyp)
+		r.Violation(id, map[string]any{
+			"kind": "enforcement", "class": "zero-rule-allowed", "rule_type": wtyp, "cached": res.cachedBefore, "previous_limiter": prev,
+		}, fmt.Sprintf("%s: the request was allowed although the rule in force (%s, and reported as limiter %q) rejects everything; the previous request of the address was served by %q, cached limiter type before: %s",
+			id, wtyp, res.limiter, res.prevLimiter, res.cachedBefore), map[string]any{"case": id})
+	case wlim == "nolimit" && !res.allowed:
+		r.Outcome("nolimit-rule-denied/" + wtyp)
+		r.Violation(id, map[string]any{
+			"kind": "enforcement", "class": "nolimit-rule-denied", "rule_type": wtyp, "cached": res.cachedBefore, "previous_limiter": prev,
+		}, fmt.Sprintf("%s: the request was rejected although the rule in force (%s) is nolimit; previous limiter %q, cached limiter type before: %s",
+			id, wtyp, res.prevLimiter, res.cachedBefore), map[string]any{"case": id})
+	case wlim == "0" || wlim == "nolimit":
+		r.Outcome(fmt.Sprintf("ok/%s/%s/after-%s/allowed=%v", wtyp, wlim, prev, res.allowed))
+
+		if prev != "" && res.prevLimiter != wlim {
+			r.Sample(map[string]any{"history": id, "served_by": lid, "allowed": res.allowed, "previous_limiter": res.prevLimiter})
+		}
 	case s.allowed[lid] > res.burst:
 		r.Outcome("over-burst/" + wtyp)
 		r.Violation(id, map[string]any{
